@@ -326,6 +326,30 @@ func withFallbackVariants(specs []TypeSpec) []TypeSpec {
 		out = append(out, v)
 	}
 
+	// a catalogue entry whose map-valued settings are given, but empty (`values: {}`): what a rule puts
+	// there is the rule's
+	for _, sp := range specs {
+		vals, ok := sp.Cat["values"].(map[string]any)
+		if !ok || len(vals) == 0 {
+			continue
+		}
+
+		v := sp
+		v.Name = sp.Name + "_novals"
+		v.Cat = deepCopy(sp.Cat)
+		v.Cat["values"] = map[string]any{}
+		v.Overrides = nil
+
+		for _, o := range sp.Overrides {
+			if _, ok := o["values"]; ok {
+				v.Overrides = append(v.Overrides, o)
+			}
+		}
+
+		v.Overrides = append(v.Overrides, map[string]any{"values": map[string]any{"b": "b-late"}})
+		out = append(out, v)
+	}
+
 	return out
 }
 
